@@ -30,6 +30,7 @@ type CheckCfg struct {
 	Bounds     map[string]string `json:"bounds"`
 	Outside    []string          `json:"outside_claim"`
 	ReplayPkg  map[string]string `json:"replay_pkg,omitempty"`
+	Prefix     []string          `json:"obligation_prefixes,omitempty"` // only these obligations belong to the property (shared harnesses)
 }
 
 type Finding struct {
@@ -257,7 +258,21 @@ func cmdCheck(args []string) int {
 	var newViol []string
 	var knownHit []string
 	oblReport := map[string]interface{}{}
+	mine := func(id string) bool {
+		if len(cfg.Prefix) == 0 {
+			return true
+		}
+		for _, p := range cfg.Prefix {
+			if strings.HasPrefix(id, p) {
+				return true
+			}
+		}
+		return false
+	}
 	for _, id := range oblIDs {
+		if !mine(id) {
+			continue
+		}
 		a := obl[id]
 		nObl++
 		st := "discharged"
